@@ -36,10 +36,14 @@ def entry_points(max_points=3, offs=(-6, 6), boundary=False):
     return st.lists(pt, min_size=1, max_size=max_points)
 
 
+def fixed_level(kmin=15, kmax=60):
+    return st.integers(kmin, kmax).map(lambda k: [[1.0, {'from_first_open': k}]])
+
+
 def action(futures, flips=False, oversize=False, spaced=1, adds=True):
     lad = ladder(oversize=oversize, spaced=spaced)
-    kinds = [st.fixed_dictionaries(dict(kind=st.just('sl'), sl=lad, shape=st.sampled_from(['list', 'tuple', 'ndarray']))),
-             st.fixed_dictionaries(dict(kind=st.just('tp'), tp=lad, shape=st.sampled_from(['list', 'tuple', 'ndarray']))),
+    kinds = [st.fixed_dictionaries(dict(kind=st.just('sl'), sl=lad, shape=st.sampled_from(['list', 'tuple', 'ndarray']), read_avg=st.booleans())),
+             st.fixed_dictionaries(dict(kind=st.just('tp'), tp=lad, shape=st.sampled_from(['list', 'tuple', 'ndarray']), read_avg=st.booleans())),
              st.fixed_dictionaries(dict(kind=st.just('both'), sl=lad, tp=lad)),
              st.fixed_dictionaries(dict(kind=st.just('sl'), sl=ladder(1, 1, 4, spaced=spaced), ref=st.just('entry'))),
              st.just(dict(kind='liq')),
@@ -51,7 +55,7 @@ def action(futures, flips=False, oversize=False, spaced=1, adds=True):
     return st.one_of(*kinds)
 
 
-def row(futures, flips=False, oversize=False, boundary=False, spaced=1, adds=True, max_points=3, busy=False, resting=False, hold=False):
+def row(futures, flips=False, oversize=False, boundary=False, spaced=1, adds=True, max_points=3, busy=False, resting=False, hold=False, fixed=False):
     act = st.sampled_from((['none'] * (2 if busy else 5)) + ['long'] * 3 + (['short'] * 3 if futures else []))
     lad = ladder(oversize=oversize, spaced=spaced)
     a = action(futures, flips, oversize, spaced, adds)
@@ -61,7 +65,8 @@ def row(futures, flips=False, oversize=False, boundary=False, spaced=1, adds=Tru
                         else entry_points(max_points, boundary=boundary)),
         shape=st.sampled_from(['list', 'list', 'tuple', 'lists']),
         exits_at=st.sampled_from(['none', 'none', 'none', 'open'] if hold else (['go', 'open', 'open', 'none'] if futures else ['open', 'open', 'none'])),
-        sl=st.one_of(st.none(), lad), tp=st.one_of(st.none(), lad),
+        sl=st.one_of(st.none(), lad, fixed_level()) if fixed else st.one_of(st.none(), lad),
+        tp=st.one_of(st.none(), lad, fixed_level()) if fixed else st.one_of(st.none(), lad),
         upd=maybe(a, 30 if hold else 4), on_red=maybe(a, 4), on_inc=maybe(a, 4),
         cancel=st.sampled_from([True, False, False, False] if resting else [True, True, True, False]),
     ))
